@@ -773,6 +773,55 @@ fn main() {
             }
             extra = json!({"rounds": 3, "traces_delivered_whole": whole, "commands_queued_by_other_threads_per_round": 100_000});
         }
+        "many-busy-queues-cancel-cancelable" => {
+            // eight threads queue 10000 commands each between two cycles (no queue is full, 80000
+            // commands in all); the last of them cancels the watched root, which the main thread
+            // then finishes: nothing of it may be delivered, however much one cycle has to take in
+            let rep = Rep::default();
+            fastrace::set_reporter(rep.clone(), Config::default().cancelable(true).report_interval(Duration::from_secs(3600)));
+            std::thread::sleep(Duration::from_millis(30));
+            let mut suppressed = 0;
+            for round in 0..3u128 {
+                let root = Arc::new(Span::root("watched-root", SpanContext::new(TraceId(0xa100 + round), SpanId(1))));
+                drop(Span::enter_with_parent("watched-child", &root));
+                let hs: Vec<_> = (0..8u128)
+                    .map(|w| {
+                        let root = root.clone();
+                        std::thread::spawn(move || {
+                            let r = Span::root("busy", SpanContext::new(TraceId(0xb100 + round * 100 + w), SpanId(1)));
+                            for _ in 0..5_000 {
+                                r.add_event(Event::new("x"));
+                                r.add_event(Event::new("y"));
+                            }
+                            if w == 7 {
+                                root.cancel();
+                                c();
+                            }
+                            drop(r);
+                        })
+                    })
+                    .collect();
+                for h in hs {
+                    h.join().unwrap();
+                }
+                let root = Arc::try_unwrap(root).ok().expect("all workers are gone");
+                drop(root);
+                for _ in 0..4 {
+                    fastrace::flush();
+                }
+                let recs = std::mem::take(&mut *rep.0.lock().unwrap());
+                let leaked: Vec<&str> = recs.iter().filter(|r| r.trace_id.0 == 0xa100 + round).map(|r| &*r.name).collect();
+                let busy = recs.iter().filter(|r| r.name == "busy").count();
+                if !leaked.is_empty() {
+                    panic!("round {}: records of a trace cancelled on another thread were delivered after eight threads had queued 80000 commands in the same interval: {:?}", round, leaked);
+                }
+                if busy != 8 {
+                    panic!("round {}: {} of the 8 other traces were delivered", round, busy);
+                }
+                suppressed += 1;
+            }
+            extra = json!({"rounds": 3, "cancelled_traces_suppressed": suppressed, "commands_queued_by_other_threads_per_round": 80_000});
+        }
         "many-threads-span-ids" => {
             // 66000 short-lived threads create one span each: span ids of different threads must
             // not repeat. Ids are (random 32-bit thread prefix, counter), so a handful of chance
